@@ -9,6 +9,11 @@ package spec
 //@   requires s != nil
 //@   ensures result2 == nil ==> result0 != nil
 
+// LALRParsingTable hands exactly (Grammar, Precedences) to the LALR(1) constructor (lookahead, not simple or
+// canonical), returns its table unchanged, and fails exactly when the constructor reports an unresolved conflict.
+// lalrTable / lalrConflict: the assumed contract of lookahead.BuildParsingTable (/verif/contracts/dep/algo.gvc).
 //@ func (s *Spec) LALRParsingTable() (*lr.ParsingTable, error)
-//@   opaque
 //@   requires s != nil
+//@   ensures @conflict-iff (result1 != nil) == lalrConflict(s.Grammar, s.Precedences)
+//@   ensures @table result1 == nil ==> result0 != nil && result0 == lalrTable(s.Grammar, s.Precedences)
+//@   ensures @no-table result1 != nil ==> result0 == nil
